@@ -1,2 +1,26 @@
-(* C11 t-digest part -- being written *)
-From DS Require Import Base.Prelude Model.TDigestCodec Spec.TDigestLayout.
+(* C11, t-digest part -- serialize then deserialize is lossless.  Statements only; proofs in
+   Proofs/TDigestCodec.v.  Model/TDigestCodec.v is the byte-level model of TDigestMut::serialize /
+   deserialize (floats as their bit patterns).  [wfb s]: a state serialize() can be applied to after
+   its own compress(): empty buffer, k in 10..65535, finite means, weights in 1..2^64-1 with
+   centroids_weight = their sum < 2^64, fewer than 2^32 centroids, min / max not NaN; an empty digest is
+   TDigestMut::new(k); a digest of total weight 1 is one unit centroid sitting on min = max. *)
+From DS Require Import Base.Prelude Base.TDigestBits Model.TDigestCodec Proofs.TDigestCodec.
+Open Scope N_scope.
+
+Theorem c11_tdigest_roundtrip : forall s, wfb s -> tdb_dec false (tdb_enc s) = Ok s.
+Proof. exact tdb_roundtrip. Qed.
+
+(* the same state comes back, so re-serialization is byte-identical *)
+Theorem c11_tdigest_reserialize : forall s s', wfb s -> tdb_dec false (tdb_enc s) = Ok s' -> tdb_enc s' = tdb_enc s.
+Proof. intros s s' W H. rewrite (tdb_roundtrip s W) in H. inversion H. reflexivity. Qed.
+
+(* non-vacuity: k = 100, reverse_merge set, centroids (1.0, w1) (2.5, w7) (4.0, w1), min 1.0, max 4.0 *)
+Example c11_tdigest_example :
+  let s := mkTdb 100 true 0x3ff0000000000000 0x4010000000000000
+             [(0x3ff0000000000000, 1); (0x4004000000000000, 7); (0x4010000000000000, 1)] 9 [] in
+  wfb s /\ length (tdb_enc s) = 80%nat /\ tdb_dec false (tdb_enc s) = Ok s.
+Proof.
+  cbv zeta. split; [|split; [reflexivity|vm_compute; reflexivity]].
+  constructor; cbn [b_k b_rev b_min b_max b_cs b_cw b_buf]; try (vm_compute; intuition (try discriminate; try reflexivity; try lia)).
+  - repeat constructor; vm_compute; try reflexivity; discriminate.
+Qed.
